@@ -2,6 +2,7 @@ import DaskModel.Lemmas.SliceNorm
 import DaskModel.Lemmas.TakePlan
 import DaskModel.Lemmas.SliceInt
 import DaskModel.Lemmas.SliceSize2
+import DaskModel.Lemmas.SliceNDLemmas
 /-!
 # C20 — array indexing equals NumPy indexing (theorems)
 
@@ -203,5 +204,72 @@ theorem take_chunks_sum (lengths : List Nat) (index : List Int) :
 
 open Dask.Take in
 example : takeNewChunks [2, 2] [3, 0, 0, 2, 1] = [[3, 0], [0, 2], [1]] := by decide
+
+/-! ## N-d: `slice_slices_and_integers` combines the per-axis plans correctly -/
+
+open Dask.SliceND Dask.Store in
+/-- **The N-d graph is the product of the per-axis plans.** For every chunking and every index of slices and
+    (in-bounds) integers, the dict comprehension `zip(out_names, in_names, all_slices)` over the three
+    `itertools.product`s has exactly one task per combination of per-axis pairs (output coordinate, (input block,
+    block index)); the output key is the combination's output coordinates with the integer axes dropped. -/
+theorem sliceND_tasks (chunks : List (List Nat)) (index : List Idx) (hwf : WF chunks index) :
+    tasks chunks index = (product (axisPairsAll chunks index)).map toTask :=
+  tasks_eq chunks index hwf
+
+open Dask.SliceND in
+/-- **One slice axis of the N-d plan.** From the user's slice `s`: every pair of the axis is (output coordinate `o`,
+    (block, in-block slice)) such that the lazy chunk `sizes[o]` is the number of positions the block reads, and
+    the `q`-th position read is the element of NumPy's selection at offset `sum(sizes[:o]) + q` — i.e. exactly where
+    the lazily declared chunks place it. With `sliceND_tasks`: the element of the output array at block coordinates
+    `o` and in-block offsets `q` is `x[sel_1[off_1 + q_1], …, sel_n[off_n + q_n]]`, NumPy's `x[s_1, …, s_n]`. -/
+theorem sliceND_axis_slice (lengths : List Nat) (s ns : PSlice) (hne : lengths ≠ [])
+    (h : normalizeSlice s lengths.sum = some ns) (p : Option Nat × (Nat × BIdx))
+    (hp : p ∈ axisPairs lengths (.sl ns)) :
+    ∃ o blk bs sizes sel, p = (some o, (blk, BIdx.sl bs)) ∧ newBlockdim lengths.sum lengths ns = some sizes ∧
+      pySliceIdx lengths.sum s = some sel ∧
+      sizes[o]? = some ((axisDen lengths blk (.sl bs)).length : Int) ∧
+      ∀ q b, (axisDen lengths blk (.sl bs))[q]? = some b → sel[((sizes.take o).sum).toNat + q]? = some b := by
+  rw [mem_axisPairs_slice, mem_enumOut] at hp
+  obtain ⟨o, kv, hi, rfl⟩ := hp
+  have hnorm := normalizeSlice_normal h
+  have hspec := newBlockdim_spec lengths ns hne hnorm (normalizeSlice_clamp h)
+  have hden := getitem1d_correct lengths s ns h
+  unfold planDen at hden
+  rw [outputOrder_slice1d] at hden hi
+  refine ⟨o, kv.1, kv.2, _, _, rfl, hspec, hden.symm, ?_, ?_⟩
+  · rw [List.getElem?_map, hi]; rfl
+  · intro q b hq
+    have := flatMap_getElem (blockDen lengths) _ o q kv b hi hq
+    have e : ((List.take o ((slice1d lengths.sum lengths ns).map
+        (fun it => (((blockDen lengths it).length : Nat) : Int)))).sum).toNat
+        = ((List.take o (slice1d lengths.sum lengths ns)).map (fun x => (blockDen lengths x).length)).sum := by
+      rw [← List.map_take, sum_map_cast (fun it => (blockDen lengths it).length)]
+      simp
+    rw [e]
+    exact this
+
+open Dask.SliceND in
+/-- an (in-bounds, posified) integer entry contributes the single pair "no output coordinate, the block holding the
+    position, the offset in it", and reads exactly that position -/
+theorem sliceND_axis_int (lengths : List Nat) (i : Int) (h0 : 0 ≤ i) (h1 : i < ((lengths.sum : Nat) : Int)) :
+    ∃ blk off, axisPairs lengths (.int i) = [(none, (blk, BIdx.int off))] ∧ axisDen lengths blk (.int off) = [i] := by
+  obtain ⟨blk, off, l, hs, _, _, _, hsum⟩ := sortedItems_int lengths i h0 h1
+  refine ⟨blk, off, ?_, ?_⟩
+  · simp [axisPairs, hs, axisOut]
+  · simp [axisDen, hsum]
+
+open Dask.SliceND in
+/-- non-vacuity: `x[4::-2, 3]` on chunks ((2,1,3),(2,2)): three tasks, output blocks 0,1,2 read input blocks
+    (2,1), (1,1), (0,1) -/
+example : tasks [[2, 1, 3], [2, 2]] [.sl ⟨some 4, none, some (-2)⟩, .int 3] =
+    [([2], [0, 1], [.sl (PSlice.ofInts (-2) (-3) (-2)), .int 1]),
+     ([1], [1, 1], [.sl (PSlice.ofInts (-1) (-2) (-2)), .int 1]),
+     ([0], [2, 1], [.sl (PSlice.ofInts (-2) (-4) (-2)), .int 1])] := by decide
+open Dask.SliceND in
+example : WF [[2, 1, 3], [2, 2]] [.sl ⟨some 4, none, some (-2)⟩, .int 3] := by simp [WF]
+open Dask.SliceND in
+example : axisPairs [2, 1, 3] (.sl ⟨some 4, none, some (-2)⟩) =
+    [(some 2, (0, .sl (PSlice.ofInts (-2) (-3) (-2)))), (some 1, (1, .sl (PSlice.ofInts (-1) (-2) (-2)))),
+     (some 0, (2, .sl (PSlice.ofInts (-2) (-4) (-2))))] := by decide
 
 end Dask.C20
